@@ -11,9 +11,28 @@ DRIVER = "Serial"
 TAGVALS = ["bm25", 1, 0.5, "x y", 3, True]
 
 
-def gen_lib(rng, tag, data=True):
-    """a cfggen library; some configuration classes additionally get a DataPath argument `dp`"""
+DUNDERS = ["len", "bool", "eq", "iter", "getattr"]
+
+
+def gen_lib(rng, tag, data=True, dunders=None):
+    """a cfggen library; some configuration classes additionally get a DataPath argument `dp`; some classes
+    (configurations, tasks, lightweight tasks) define special methods — `__len__` (length of a container parameter,
+    often 0), `__bool__` (False), `__eq__`/`__hash__` (all objects of the class are equal), `__iter__`, `__getattr__`
+    (default for unknown attributes) — that the machinery must not depend on"""
     lib = cfggen.gen_library(rng, tag)
+    dunders = DUNDERS if dunders is None else dunders
+    if dunders:
+        pkg = lib["pkg"]
+        lib["classes"][2:2] = [
+            {"name": "LWE", "xpmid": f"{pkg}.lwe", "parent": None, "kind": "light", "deprecated": False, "dunder": [d for d in ("len",) if d in dunders],
+             "args": [{"name": "items", "decl": "param", "ty": {"list": "int"}, "optional": False, "default": {"l": []}}]},
+            {"name": "LWB", "xpmid": f"{pkg}.lwb", "parent": None, "kind": "light", "deprecated": False,
+             "dunder": [d for d in ("bool", "eq") if d in dunders],
+             "args": [{"name": "v", "decl": "param", "ty": "int", "optional": False}]}]
+        for c in lib["classes"]:
+            if c["name"].startswith("C") and rng.random() < 0.4:
+                k = rng.choice([1, 1, 2, 3])
+                c["dunder"] = sorted(rng.sample(dunders, min(k, len(dunders))))
     if data:
         for c in lib["classes"]:
             if c["name"].startswith("C") and rng.random() < 0.35:
@@ -37,6 +56,14 @@ def gen_graph(rng, lib, max_nodes=8, cycles=True, task_links=True, tags=True):
         if tags and rng.random() < 0.25:
             nd["tags"] = [[rng.choice(["model", "lr", "k"]), rng.choice(TAGVALS)] for _ in range(rng.choice([1, 2]))]
     add_pretask_repeats(rng, g)
+    if any(c["name"] == "LWE" for c in lib["classes"]):
+        for nd in g["nodes"]:      # lightweight tasks that are empty containers / false / all equal
+            if nd["cls"] == "LW" and rng.random() < 0.5:
+                if rng.random() < 0.5:
+                    nd["cls"] = "LWB"
+                else:
+                    nd["cls"] = "LWE"
+                    nd["values"] = [] if rng.random() < 0.4 else [["items", {"l": [] if rng.random() < 0.6 else [1, 2]}]]
     return g
 
 
@@ -93,6 +120,8 @@ def graph_stats(lib, g):
     st["paths"] = sum(1 for nd in g["nodes"] for k, v in nd["values"] if isinstance(v, dict) and "p" in v)
     st["tags"] = sum(len(nd.get("tags", [])) for nd in g["nodes"])
     st["prerepeat"] = sum(1 for nd in g["nodes"] if len(set(nd["pre"])) < len(nd["pre"]))
+    dun = {c["name"] for c in lib["classes"] if c.get("dunder")}
+    st["dunder"] = sum(1 for nd in g["nodes"] if nd["cls"] in dun)
     return st
 
 
@@ -173,7 +202,7 @@ def install_local_findings(prop):
 
 
 def feature_key(st):
-    return "+".join(k for k in ("files", "meta", "pre", "prerepeat", "init", "taskout", "data", "paths", "tags", "cyclic") if st.get(k)) or "plain"
+    return "+".join(k for k in ("files", "dunder", "meta", "pre", "prerepeat", "init", "taskout", "data", "paths", "tags", "cyclic") if st.get(k)) or "plain"
 
 
 def make_cases(ctx, rng, kind, nlibs, per, tag):
